@@ -12,6 +12,7 @@ mod c08;
 mod c09;
 mod c10;
 mod c12;
+mod c13;
 mod c16;
 mod util;
 
@@ -32,6 +33,7 @@ fn main() {
         ("search", "c08") => c08::search(&args[3..]),
         ("search", "c10") => c10::search(&args[3..]),
         ("search", "c12") => c12::search(&args[3..]),
+        ("search", "c13") => c13::search(&args[3..]),
         ("replay", path) => {
             let text = match std::fs::read_to_string(path) {
                 Ok(t) => t,
@@ -44,11 +46,17 @@ fn main() {
             match kind.as_str() {
                 "c04-requests" => c04::replay(&text),
                 "c02-panic-ops" => c02::replay(&text),
+                "c02-source" => {
+                    let seed = util::field(&text, "seed").unwrap_or_else(|| "1".into());
+                    let programs = util::field(&text, "programs").unwrap_or_else(|| "300".into());
+                    c02::search(&["--random".to_string(), "0".to_string(), "--seed".to_string(), seed, "--programs".to_string(), programs])
+                }
                 "c03-op" => c03::replay(&text),
                 "kani-values" => c16::replay(&text),
                 "c09-literal" => c09::replay(&text),
                 "c08-match" => c08::replay(&text),
                 "c12-consts" => c12::replay(&text),
+                "c13-join" => c13::replay(&text),
                 "c16-circuit" | "c10-conversion" => {
                     println!("{text}");
                     3
